@@ -138,6 +138,12 @@ def check_can_write(chk) -> None:
             if skew and not overs:
                 chk.violation("fit-test", fi.where, f"the fit test for {col} compares `{skew[0][0]}` with {skew[0][1]}, not the maximum of {col} itself: the writer's field holds every value up to {lim}, so a table whose values all fit is reported as not fitting (fit_to_pdb then renumbers serials, chains and residues of a table it has to return unchanged) or one that does not fit as fitting", K(fi, f"limit:{col}"), found=list(skew[0]))
                 continue
+            unread = [a2[1] for d2, rv2, st2 in cif for a2, v2 in d2 if a2 and a2[0] == "other" and f"'{col}'" in a2[1]]
+            if not overs and unread:
+                # a comparison that involves the column is there, in a form this reading does not understand (a helper, another way of
+                # taking the maximum): the closed-world reading abstains
+                chk.error("fit-test", fi.where, f"the fit test for {col} is `{unread[0][:80]}`: not the pinned form and not evaluable on tables - whether it bounds the maximum of {col} is undecided")
+                continue
             if not overs:
                 chk.violation("fit-test", fi.where, f"no path of can_write_pdb compares the maximum of {col} with its limit: a table that violates the PDB limit is reported as fitting (and then returned unchanged by fit_to_pdb)", K(fi, f"limit:{col}"))
                 continue
